@@ -14,7 +14,12 @@
        check reports it as KNOWN-FINDING);
      C11_captured_decodes - decoding captured octets of a value later yields
        that very value (the tree decoding in place delivers), consuming all.
-   By streams only: decode_partial partitions, re-encoding of a Captured. *)
+     C11_decode_partial_one / _sound / C11_decode_partials_partition -
+       Captured::decode_partial takes exactly one well-formed value off the
+       front and keeps the rest; k partial decodes over k captured values
+       return the values in order, nothing lost, nothing overlapping, nothing
+       left.
+   By streams only: re-encoding of a Captured (the octets verbatim; c11, c06). *)
 Require Import BV.Model.Base BV.Model.SrcB BV.Model.Length BV.Model.Tag BV.Model.Content.
 Require Import BV.Proofs.SrcBP BV.Proofs.TagP BV.Proofs.ContentP BV.Proofs.GrammarP BV.Proofs.CaptureP.
 
@@ -63,6 +68,26 @@ Theorem C11_eoc_included_refuted :
             = Ok (Some [2; 1; 0; 0; 0]).
 Proof. exact capture_eoc_witness. Qed.
 
+(* Captured::decode_partial: one partial decode takes exactly one well-formed value off the front (both
+   directions), and k of them over k captured values return the values in order with nothing lost, nothing
+   overlapping and nothing left *)
+Theorem C11_decode_partial_one : forall m t d rest fuel, GrammarP.enc m t d -> octets_ok (d ++ rest) = true ->
+  (size t <= fuel)%nat -> decode_partial m (one_value fuel) (d ++ rest) = Ok (t, rest).
+Proof. exact decode_partial_one. Qed.
+Theorem C11_decode_partial_sound : forall m fuel bytes t r, octets_ok bytes = true ->
+  decode_partial m (one_value fuel) bytes = Ok (t, r) ->
+  exists d, GrammarP.enc m t d /\ bytes = d ++ r.
+Proof. exact decode_partial_sound. Qed.
+Theorem C11_decode_partials_partition : forall m ts ds fuel, encs m ts ds -> octets_ok ds = true ->
+  (length ds <= fuel)%nat ->
+  decode_partials m (one_value fuel) (length ts) ds = Ok (ts, []).
+Proof. exact decode_partials_partition. Qed.
+Example C11_ex_decode_partials :
+  decode_partials Der (one_value 10) 2 [2; 1; 5; 48; 3; 1; 1; 255] =
+    Ok ([TPrim T_INTEGER [5]; TCons T_SEQUENCE [TPrim T_BOOLEAN [255]]], []) /\
+  decode_partial Der (one_value 10) [2; 1; 5; 48; 3; 1; 1; 255] = Ok (TPrim T_INTEGER [5], [48; 3; 1; 1; 255]).
+Proof. exact decode_partials_example. Qed.
+
 Example C11_ex_capture_one :
   fst (capture_one 20 (mkCons Unbounded Der) (pure_src [2;1;5; 5;0] None))
   = Ok ([2;1;5], mkCons Unbounded Der).
@@ -74,3 +99,6 @@ Print Assumptions C11_captured_decodes.
 Print Assumptions C11_capture_exact.
 Print Assumptions C11_capture_propagates_error.
 Print Assumptions C11_eoc_included_refuted.
+Print Assumptions C11_decode_partial_one.
+Print Assumptions C11_decode_partial_sound.
+Print Assumptions C11_decode_partials_partition.
